@@ -33,17 +33,19 @@ Definition text_eqb := list_eqb Z.eqb.
 Definition texts_eqb := list_eqb text_eqb.
 
 (* (text with newlines already translated, f.readlines() of the real file, real regex groups) *)
-Definition lines_case := (text * list text * list text)%type.
+Definition lines_case := (list Z * list (list Z) * list (list Z))%type.
 Definition chk_lines (c : lines_case) : bool :=
   let '(t, lines, groups) := c in
   texts_eqb (readlines t) lines && texts_eqb (retrieve_model lines) groups && texts_eqb (findall t) groups.
 
-(* (add_time, message unserialisable, message too large, events, observed outcomes, captured stdout) *)
-Definition sender_case := (bool * text * text * list event * list outcome * text)%type.
+(* (message unserialisable, message too large, events, observed outcomes, captured stdout) *)
+Definition sender_case := (list Z * list Z * list event * list outcome * list Z)%type.
 Definition chk_sender (c : sender_case) : bool :=
-  let '(add_time, m1, m2, evs, obs, captured) := c in
-  let '(_, os, cs) := run_script m1 m2 (reporter_init add_time) evs in
-  list_eqb outcome_eqb os obs && text_eqb (render cs) captured.
+  let '(m1, m2, evs, obs, captured) := c in
+  let '(_, os, cs) := run_script m1 m2 reporter_init evs in
+  list_eqb outcome_eqb os obs && text_eqb (render cs) captured &&
+  (* the hypotheses of c18_framing / c18_end_to_end hold of the real stream, and so does the conclusion *)
+  payloads_ok cs && noise_ok cs && texts_eqb (retrieve_model (readlines (render cs))) (payloads_of cs).
 """
 
 
@@ -63,6 +65,7 @@ def txs(items):
 # --------------------------------------------------------------------------
 NP_FLOAT = ["float16", "float32", "float64"]
 NP_INT = ["int8", "int16", "int32", "int64", "uint8", "uint16", "uint32", "uint64"]
+# values json cannot encode (before the fix 93fe890 of /repo these were silently written as null)
 BAD_NULL = ["set", "ndarray", "object", "complex", "bytes", "np_bytes", "np_datetime64", "np_complex64", "frozenset"]
 BAD_TYPEERROR = ["tuple_key"]
 
@@ -273,7 +276,7 @@ CALL_KINDS = (["ok"] * 14 + ["empty", "st_key", "st_key", "none", "none", "st_an
 
 
 def gen_sequence(rng):
-    add_time = rng.random() < 0.93
+    add_time = rng.random() < 0.8
     add_cost = rng.random() < 0.8
     evs = []
     acc = ""
@@ -349,8 +352,6 @@ def exc_kind(e):
         return "AssertionErr"
     if isinstance(e, TypeError):
         return "TypeErr"
-    if isinstance(e, AttributeError):
-        return "AttributeErr"
     return "Other:" + type(e).__name__
 
 
@@ -417,7 +418,7 @@ def run_sequence(ctx, seq, lines_cases, lines_meta, sender_cases, sender_meta):
                 ctx.violation("property", "a rejected report (%s) left a partial or tagged line on the stream: %r" % (why, delta[:200]),
                               case=case, signature=dict(component="Reporter", defect="partial_line_after_rejection"))
         # ---- what the model is told about this call (oracle values) ----------------------
-        keys_t = lst([tx(k) for k, _ in items]) if items else "(@nil text)"
+        keys_t = lst([tx(k) for k, _ in items]) if items else "(@nil (list Z))"
         none_t = lst([blit(s[0] == "none") for _, s in items]) if items else "(@nil bool)"
         if err is None:
             payload = delta[len("[%s]: " % TAGTXT):-1] if delta.startswith("[%s]: " % TAGTXT) and delta.endswith("\n") else None
@@ -445,9 +446,11 @@ def run_sequence(ctx, seq, lines_cases, lines_meta, sender_cases, sender_meta):
                 msgs.setdefault("large", delta)
             else:
                 dump = "fun _ => Some (@nil Z, 0)"
-            obs_terms.append(kind if not kind.startswith("Other") else "TypeErr")
             if kind.startswith("Other"):
-                ctx.notes.append("report %r raised %s" % (str(items)[:120], kind))
+                ctx.violation("correspondence", "report %r raised %s, an outcome the model does not have" % (str(items)[:200], kind),
+                              case=case, failing_input=False, broken="correspondence chk_sender (model/Report.v report_call)")
+                return
+            obs_terms.append(kind)
             nontrivial = True
         ev_terms.append("Call {| rq_keys := %s; rq_none := %s; rq_dump := %s |}" % (keys_t, none_t, dump))
     text = buf.getvalue()
@@ -459,6 +462,7 @@ def run_sequence(ctx, seq, lines_cases, lines_meta, sender_cases, sender_meta):
     if len(expected) >= 2 or strings_with_tag or (noise_same_line and expected):
         nontrivial = True
     ctx.count(("seq", seq), nontrivial=nontrivial)
+    ctx.traces_validated += 1
     ctx.h("seq_reports_delivered", len(expected))
     ctx.h("stream_chars", min(len(text) // 200 * 200, 2000))
     # ---- independent checker, receiving side ----------------------------------------------
@@ -495,8 +499,8 @@ def run_sequence(ctx, seq, lines_cases, lines_meta, sender_cases, sender_meta):
     elif got is not None and len(groups) != len(got):
         ctx.notes.append("json.loads spy saw %d groups for %d results: raw-group correspondence skipped" % (len(groups), len(got)))
     if len(text) <= 2500:
-        sender_cases.append("(%s, %s, %s, %s, %s, %s)" % (
-            blit(seq["add_time"]), tx(msgs.get("unser", "")), tx(msgs.get("large", "")),
+        sender_cases.append("(%s, %s, %s, %s, %s)" % (
+            tx(msgs.get("unser", "")), tx(msgs.get("large", "")),
             lst(ev_terms) if ev_terms else "(@nil event)", lst(obs_terms) if obs_terms else "(@nil outcome)", tx(text)))
         sender_meta.append(dict(kind="seq", seq=seq, captured=text))
     ctx.sample(dict(kind="sequence", seq=seq, captured_stdout=text[:600], retrieved=repr(got)[:600]))
@@ -513,7 +517,17 @@ FORGE_PIECES = [
 
 
 def gen_forged(rng):
-    return "".join(rng.choice(FORGE_PIECES) for _ in range(rng.choice([1, 2, 3, 5, 8, 12])))
+    if rng.random() < 0.4:
+        return "".join(rng.choice(FORGE_PIECES) for _ in range(rng.choice([1, 2, 3, 5, 8, 12])))
+    lines = []
+    for _ in range(rng.randint(1, 4)):
+        ln = rng.choice(["", "", "abc", "} ", "[tune-metri", "x{", "[", "\r"])
+        for _ in range(rng.randint(0, 3)):
+            ln += rng.choice(["[tune-metric]: {", "[tune-metric]: {", "[tune-metric]: {", "[tune-metric]: ", "[tune-metric]:{"])
+            ln += rng.choice(['"a": 1', "", "}", '"b": {"c": 2}', "x", '"s": "[tune-metric]: {}"'])
+            ln += rng.choice(["}", "}", "", "} tail", "}}", "} } ", "}\r"])
+        lines.append(ln)
+    return "\n".join(lines) + rng.choice(["", "\n"])
 
 
 # --------------------------------------------------------------------------
@@ -571,6 +585,14 @@ def notes_probes(ctx):
         rep(a=2)
     its = [d["st_worker_iter"] for d in retrieve(buf.getvalue().splitlines(True))]
     ctx.notes.append("counter after an oversized report (theorem c18_counter_dense_refuted replayed): st_worker_iter = %r" % its)
+    buf = io.StringIO()
+    with contextlib.redirect_stdout(buf):
+        try:
+            Reporter()(a=np.longdouble(1.5))
+            out = "accepted"
+        except BaseException as e:  # noqa
+            out = "raises " + type(e).__name__
+    ctx.notes.append("np.longdouble value (its .item() is again a numpy scalar): Reporter %s, stream %r" % (out, buf.getvalue()[:80]))
     try:
         retrieve(['[tune-metric]: {"a": {"x": 1}, "st_wor'])
         ctx.notes.append("partially written last line with nested '}': retrieve returned normally")
